@@ -43,6 +43,16 @@ def env():
     if not _env:
         import warnings
         warnings.filterwarnings('ignore')
+        # numba cannot always pickle an overload that takes a function argument (dew_point.solve_x, gamma_iter): saving it to the
+        # on-disk cache then raises ReferenceError('underlying object has vanished') out of the flash.  Saving is an optimisation
+        # only: let it fail silently.
+        import numba.core.caching as _nc
+        if not getattr(_nc.Cache, '_verif_safe', False):
+            _orig_save = _nc.Cache.save_overload
+            def _safe_save(self, sig, data):
+                try: _orig_save(self, sig, data)
+                except ReferenceError: pass
+            _nc.Cache.save_overload = _safe_save; _nc.Cache._verif_safe = True
         import thermosteam as tmo
         N2 = tmo.Chemical('N2', phase='g'); CO2 = tmo.Chemical('CO2', phase='g')
         Glu = tmo.Chemical('Glucose', phase='l', default=True)
@@ -271,13 +281,6 @@ def gen_sleh_case(rng):
         elif r < 0.75: ops.append(['set', rng.choice('ls'), j, rng.choice([0.] + FLOWS)])
         elif r < 0.87: ops.append(['set', 'l', rng.choice([0, 1, 2]), rng.choice([0., 0.] + FLOWS)])
         else: ops.append(['scale', rng.choice([0.5, 2., 0.25, 4.])])
-    # (a solubility= call on an object that was never set up reads _solid_mol before it exists: AttributeError, see report;
-    #  the histories start with a plain call)
-    seen_T = False
-    for op in ops:
-        if op[0] == 'T': seen_T = True
-        elif op[0] == 'given' and not seen_T:
-            op[0] = 'T'; op[2] = 0.25; seen_T = True
     return {'kind': 'sleh', 'l': l, 's': s, 'j': j, 'ops': ops}
 
 def gen_vlle_case(rng):
@@ -649,6 +652,7 @@ def run_vleh(case):
             init = snapshot(s)
             raised = None
             kw = {k: (np.array(val) if isinstance(val, list) else val) for k, val in spec.items()}
+            v = s.vle          # as a user does: the stream hands out its (cached) VLE object at every call
             try:
                 v(**kw)
             except Exception as ex:
@@ -1212,3 +1216,9 @@ def oracle(case):
 
 def finding_key(case, msg):
     return 'C03:' + msg.split(':')[0]
+
+# witnesses of defects of the unchanged tree: active once the finding is listed in known_findings.txt, or with VERIF_PENDING=1
+# (then `./check C03 quick` on /repo re-establishes them; after the fix of pending_fixes/C03_1 they must stop failing)
+import vf as _vf
+_ALL_WITNESSES = [{'key': 'C03:vle(Py)', 'case': PENDING[0]}, {'key': 'C03:vle(Ty)', 'case': PENDING[1]}]
+WITNESSES = [w for w in _ALL_WITNESSES if (ID, w['key']) in _vf.load_known() or os.environ.get('VERIF_PENDING')]
